@@ -128,6 +128,8 @@ std::string eval_prog(const Sx &q) {
     typename an_t::assumption_map_t assumptions;
     crab::analyzer::fwd_bwd_parameters params;
     params.enable_backward() = true;
+    params.get_max_refine_iterations() = p.fb_max;
+    params.get_use_refined_invariants() = p.fb_refined;
     a.run(p.entry, init, assumptions, p.live ? &live : nullptr, fp, params);
     return report(a, p, B);
   }
